@@ -63,6 +63,23 @@ def _job(job: dict[str, Any]) -> list[dict[str, Any]]:
                 else sched.seeded(seed, job.get("switch", 0.5))
             r = run_one(scn, pol, **job.get("kw", {}))
             keep(r, {"mode": kind, "seed": seed, "schedule": r["schedule"], **job.get("kw", {})})
+    elif mode == "crash":
+        # reference run, then one execution per (victim actor, point): hard crash of its process there
+        pol = (lambda: sched.seeded(job["seed"], 0.3)) if job.get("seed") is not None else (lambda: sched.sequential)
+        ref = run_one(scn, pol(), **job.get("kw", {}))
+        keep(ref, {"mode": "crash-ref", "schedule": ref["schedule"]})
+        procs = set(job["procs"])
+        ncrash = 0
+        for name, steps in sorted(ref["actor_steps"].items()):
+            parts = name.split(":")
+            if len(parts) < 2 or parts[1].split("/")[0] not in procs or "/" in name:
+                continue
+            for k in range(1, steps + 1):
+                r = run_one(scn, pol(), kill_at=(name, k), **job.get("kw", {}))
+                ncrash += 1
+                keep(r, {"mode": "crash", "victim": name, "k": k, "seed": job.get("seed"),
+                         "schedule": r["schedule"]})
+        out[0]["stats"] = {"executions": ncrash + 1, "truncated": 0}
     elif mode == "replay":
         r = run_one(scn, sched.Replay(job["schedule"]), **job.get("kw", {}))
         keep(r, {"mode": "replay", "schedule": job["schedule"], **job.get("kw", {})})
@@ -114,6 +131,7 @@ def validate_obs(ctx: Ctx, prop: str, results: list[dict[str, Any]], formulas: I
         for step, formula in v.flags:
             counts[formula] = counts.get(formula, 0) + 1
             if formula in mine:
+                r["_details"] = v.details
                 sig = signature(r, step, formula)
                 ctx.findings.append(Finding(prop, formula, sig,
                                             {"scenario": r["scn"], "how": r["how"], "step": step},
